@@ -67,7 +67,7 @@ def run_seed(seed):
 def main():
     seeds = sys.argv[1:] or sorted(x for x in os.listdir(os.path.join(VERIF, 'seeded'))
                                    if os.path.isdir(os.path.join(VERIF, 'seeded', x)))
-    with ThreadPoolExecutor(max_workers=6) as ex:
+    with ThreadPoolExecutor(max_workers=10) as ex:
         results = list(ex.map(run_seed, seeds))
     out = os.path.join(VERIF, 'seeded', 'RESULTS.json')
     old = {}
